@@ -2,6 +2,7 @@
 package c01
 
 import (
+	"reflect"
 	"bytes"
 	stded "crypto/ed25519"
 	"encoding/binary"
@@ -25,7 +26,7 @@ func init() {
 		RaceClasses: []string{"concurrent"},
 		Scale386:    12,
 		Parallel:    4, // cases are judged on 4 goroutines per shard: the library functions are stateless, shared state inside them shows up as wrong verdicts
-		Rule: "(public key, message, signature) triples in classes: honest (crypto/ed25519 signatures, message length 0..2500 and around 2^9..2^13), bitflip (1-2 flipped bits), s_plus_jL (S+jL for every j with S+jL < 2^256), torsion (A=[s]B+T, R=[r]B+T' for all 8x8 torsion pairs, S=r+k*s with k over the bytes as given, and the same with S perturbed), smallorder (every encoding of every small-order point incl. non-canonical ones as A and as R, with S=0, S=k*s, S=jL, S=1), noncanonical_y (all 38 encodings with y>=p), s_high (canonical S in the sliver [2^252, L), built from a small-order A and R=[S]B+T', with structured limbs, and S just at/above L), s_limbs (S over the whole 256-bit range built from 64/32/16/8-bit chunks that are 0, 1, all-ones, half-range, the order's chunk, next to it, or the order's chunk plus half the range; small-order A and R=[S mod L]B+T', so that S<L alone decides), r_related_to_key (R == A, the honest signature with nonce r = a; R == -A; R == A+T; with the S that satisfies the equation and the one with the sign of r flipped), rare_encoding (honest keys — thorough: also nonce points — whose canonical encoding has the 15 upper bits of y all set or all clear, or the two lowest bytes 0x0000 / 0xffff, found by grinding 2^21 (2^24) seeds with crypto/ed25519), identity_r (the neutral element in every encoding as R under an honest key, with S = k*a, random S, S in {0,1,2}), undecodable A/R (with an honest signature, and with the signature that would verify if the undecodable point were taken for the neutral element), bigmsg (messages of 4 KiB..400 KiB with a length within 72 of m*2^j, j = 12..17, m = 1..3: honest, and with one bit flipped near the end or start of the message), length (signature lengths 0..70 and 64+256, 64+512, 64+65536), random, concurrent (8 goroutines verify their own message/signature pairs, valid and not, under one key, all passing the same PublicKey slice; expectations from the model), and sequence (2..6 consecutive calls on the related keys A and -A, which differ in the sign bit only, with signatures of either, torsion-shifted keys and undecodable R in between: every verdict must equal the predicate of that call alone; the inputs of a sequence are passed in buffers that are overwritten in place between the calls, and some steps first call Sign with a well-formed or a mismatched (seed of one key, public half of another) private key and verify the result). " +
+		Rule: "(public key, message, signature) triples in classes: honest (crypto/ed25519 signatures, message length 0..2500 and around 2^9..2^13), bitflip (1-2 flipped bits), s_plus_jL (S+jL for every j with S+jL < 2^256), torsion (A=[s]B+T, R=[r]B+T' for all 8x8 torsion pairs, S=r+k*s with k over the bytes as given, and the same with S perturbed), smallorder (every encoding of every small-order point incl. non-canonical ones as A and as R, with S=0, S=k*s, S=jL, S=1), noncanonical_y (all 38 encodings with y>=p), s_high (canonical S in the sliver [2^252, L), built from a small-order A and R=[S]B+T', with structured limbs, and S just at/above L), s_limbs (S over the whole 256-bit range built from 64/32/16/8-bit chunks that are 0, 1, all-ones, half-range, the order's chunk, next to it, or the order's chunk plus half the range; small-order A and R=[S mod L]B+T', so that S<L alone decides), r_related_to_key (R == A, the honest signature with nonce r = a; R == -A; R == A+T; with the S that satisfies the equation and the one with the sign of r flipped), rare_encoding (honest keys — thorough: also nonce points — whose canonical encoding has the 15 upper bits of y all set or all clear, or the two lowest bytes 0x0000 / 0xffff, found by grinding 2^21 (2^24) seeds with crypto/ed25519), identity_r (the neutral element in every encoding as R under an honest key, with S = k*a, random S, S in {0,1,2}), undecodable A/R (with an honest signature, and with the signature that would verify if the undecodable point were taken for the neutral element), bigmsg (messages of 4 KiB..400 KiB with a length within 72 of m*2^j, j = 12..17, m = 1..3, and one in sixteen next to 256 KiB, 512 KiB or 1 MiB: honest, and with one bit flipped near the end or start of the message), length (signature lengths 0..70 and 64+256, 64+512, 64+65536), random, concurrent (8 goroutines verify their own message/signature pairs, valid and not, under one key, all passing the same PublicKey slice; expectations from the model), and sequence (2..6 consecutive calls on the related keys A and -A, which differ in the sign bit only, with signatures of either, torsion-shifted keys and undecodable R in between: every verdict must equal the predicate of that call alone; the inputs of a sequence are passed in buffers that are overwritten in place between the calls, and some steps first call Sign with a well-formed or a mismatched (seed of one key, public half of another) private key and verify the result). " +
 			"Every Verify call is judged two-sidedly against the big-integer ZIP-215 model and one-sidedly against crypto/ed25519 (std accept => accept). Non-trivial: every distinct triple outside class random.",
 		Assumptions: []string{"SHA-512 of the Go standard library", "math/big", "the ZIP-215 model in harness/oracle/ed (self-tested against RFC 8032 vectors, crypto/ed25519 and the known small-order encodings)"},
 		SelfTest:    ed.SelfTest,
@@ -76,6 +77,15 @@ func judge(class string, key []byte, o *fw.Obs) {
 				}
 				pubIn, sigIn = pubIn[32:], made
 				o.Count("sequence: sign-then-verify steps")
+			}
+			if len(pubIn) == stded.PublicKeySize {
+				// accessors: every exported method of PublicKey that takes no argument is called on the key before
+				// the judged call (found by reflection, so that helpers added later are driven as well); a
+				// method that looks like a pure query must not change what Verify answers
+				pk := ed25519.PublicKey(append([]byte(nil), pubIn...))
+				if n := callNiladic(pk); n > 0 {
+					o.Add("sequence: argument-less PublicKey methods called before a Verify", int64(n))
+				}
 			}
 			copy(pubBuf, pubIn)
 			msgBuf = append(msgBuf[:0], msg...)
@@ -159,6 +169,20 @@ func bigCase(seed uint64, n int, variant byte) [][]byte {
 		}
 	}
 	return [][]byte{[]byte(sk[32:]), msg, sig}
+}
+
+// callNiladic calls every exported method of v that takes no argument; panics are not judged here.
+func callNiladic(v interface{}) (n int) {
+	rv := reflect.ValueOf(v)
+	for i := 0; i < rv.NumMethod(); i++ {
+		m := rv.Method(i)
+		if m.Type().NumIn() != 0 {
+			continue
+		}
+		n++
+		fw.TryPanics(func() { m.Call(nil) })
+	}
+	return n
 }
 
 // selByte derives a selector bit from the contents of the case (an empty message is passed as nil in half of the cases).
@@ -446,6 +470,9 @@ func gen(g *fw.Gen) {
 	// j = 12..17, m = 1..3, |d| <= 72; honest, and with one bit of the message flipped near its end or start
 	for n := g.ShareOf(800, 40000); n > 0; n-- {
 		l := (1+g.Rng.Intn(3))<<uint(12+g.Rng.Intn(6)) + g.Rng.Intn(145) - 72
+		if n%16 == 0 { // 256 KiB, 512 KiB, 1 MiB
+			l = 1<<uint(18+g.Rng.Intn(3)) + g.Rng.Intn(145) - 72
+		}
 		g.Emit("bigmsg", fw.Pack(fw.U64(g.Rng.Uint64()), fw.U32(uint32(l)), []byte{byte(g.Rng.Intn(4) % 3)}))
 	}
 
